@@ -25,17 +25,18 @@ from pfdl_scheduler.model.condition import Condition  # noqa: E402
 from pfdl_scheduler.api.observer_api import NotificationType, Observer  # noqa: E402
 
 
-def to_py_value(v):
-    """harness value -> what an execution engine would hand to the scheduler"""
+def to_py_value(v, as_float=False):
+    """harness value -> what an execution engine would hand to the scheduler; as_float: whole
+    numbers are delivered as floats (2.0, e.g. a JSON-decoded service result) instead of ints"""
     if isinstance(v, bool):
         return v
     if isinstance(v, int):
-        return v
+        return float(v) if as_float else v
     if isinstance(v, Fraction):
-        return int(v) if v.denominator == 1 else float(v)
+        return (float(v) if as_float else int(v)) if v.denominator == 1 else float(v)
     if isinstance(v, tuple):
         return v[1]
-    return Struct(attributes={k: to_py_value(x) for k, x in v.items()})
+    return Struct(attributes={k: to_py_value(x, as_float) for k, x in v.items()})
 
 
 def parse_pelem(text):
@@ -212,6 +213,8 @@ class ImplRun:
         self.reoracle = zlib.crc32(text.encode()) % 2 == 0
         self.dup_in_sf = zlib.crc32(text.encode()) % 3 == 1
         self.dup_results = []
+        # in a third of the cases the engine delivers whole numbers as floats (2.0 for 2)
+        self.float_ints = zlib.crc32(text.encode()) % 3 == 2
         self._register_oracle()
 
     # -- identifiers -----------------------------------------------------
@@ -346,7 +349,7 @@ class ImplRun:
         self.nq += 1
         v = self.vals[k]
         x = v.get(name, v.get("*"))
-        return to_py_value(x)
+        return to_py_value(x, self.float_ints)
 
     # -- API calls -------------------------------------------------------
     def snapshot(self, ret):
